@@ -12,6 +12,8 @@ use std::sync::Arc;
 
 thread_local! {
     static LAST_PANIC: RefCell<Option<(String, u32, String)>> = RefCell::new(None);
+    /// (property, group, index) of the case this worker is executing (for abort diagnostics)
+    pub static CURRENT_CASE: RefCell<(String, u64)> = RefCell::new((String::new(), 0));
 }
 
 pub fn install_panic_hook() {
@@ -25,8 +27,14 @@ pub fn install_panic_hook() {
         let (f, l) = info.location().map(|l| (l.file().to_string(), l.line())).unwrap_or(("?".into(), 0));
         LAST_PANIC.with(|p| {
             let mut p = p.borrow_mut();
-            // keep the FIRST panic of a run (a panic while unwinding would abort anyway)
-            if p.is_none() {
+            // keep the FIRST panic of a run; a second one while unwinding aborts the process, so
+            // leave a trace on stderr for the runner (the abort cannot be caught in-process)
+            if let Some((f0, l0, m0)) = p.as_ref() {
+                if std::thread::panicking() {
+                    let case = CURRENT_CASE.with(|c| c.borrow().clone());
+                    eprintln!("VMON-NESTED-PANIC\tcase={}:{}\tfirst={}:{}\tfirst_msg={}\tsecond={}:{}\tsecond_msg={}", case.0, case.1, f0, l0, trunc(&m0.replace(['\n', '\t'], " "), 150), f, l, trunc(&msg.replace(['\n', '\t'], " "), 150));
+                }
+            } else {
                 *p = Some((f, l, msg));
             }
         });
@@ -415,6 +423,7 @@ where
                     if !ctx.wants(group, i) {
                         continue;
                     }
+                    CURRENT_CASE.with(|c| *c.borrow_mut() = (tag.clone(), i));
                     let mut rng = Rng::for_case(ctx.seed, &tag, i);
                     let before = rep.violations.len();
                     let r = catch_unwind(AssertUnwindSafe(|| f(&mut rng, i, &mut rep)));
